@@ -103,6 +103,10 @@ theorem tryValue_ne_panic (parse : Bytes → Option Bytes) (mk : Bytes → Field
     tryValue parse mk v ≠ .panic := by
   unfold tryValue; split <;> simp
 
+/-- the `Protocol` table the translator reads from `h3/src/ext.rs` is the list of IANA tokens the
+    specification writes out (a `Protocol` constant added to or removed from h3 fails here) -/
+theorem protocols_gen_eq_spec : H3.Gen.Headers.protocols = protocolTokens := by decide
+
 theorem parseProtocol_some {v p : Bytes} (h : parseProtocol v = some p) : p = v ∧ v ∈ H3.Gen.Headers.protocols := by
   unfold parseProtocol at h
   split at h
@@ -764,7 +768,7 @@ theorem parseOk_fieldOk {H : Http} {n v : Bytes} {fld : Field} (hp : ParseOk H n
     rw [if_pos (by decide : IsPseudo nStatus)]; exact Or.inr (Or.inr (Or.inr (Or.inr (Or.inl ⟨rfl, (validStatus_iff v).mp hs⟩))))
   | protocol e hm =>
     subst e; refine ⟨(by decide : nProtocol ≠ []), ?_⟩
-    rw [if_pos (by decide : IsPseudo nProtocol)]; exact Or.inr (Or.inr (Or.inr (Or.inr (Or.inr ⟨rfl, hm⟩))))
+    rw [if_pos (by decide : IsPseudo nProtocol)]; exact Or.inr (Or.inr (Or.inr (Or.inr (Or.inr ⟨rfl, protocols_gen_eq_spec ▸ hm⟩))))
 
 theorem inv_fieldOk {H : Http} {fs : List FieldLine} {h : Header} (hi : Inv H fs h) : ∀ f ∈ fs, FieldOk H f := by
   intro f hf
